@@ -13,13 +13,20 @@ def runC14 (op : String) (j : Json) : R Json := do
     let cm := C12.mergeChannelMaps maps
     let pr := C12.channelProbes maps
     pure (Json.mkObj [("merged_map", jNats cm), ("probes", jNats pr), ("model", jInts (exportRawInd cm pr)),
-                      ("spec", jInts (maps.flatten.map Int.ofNat))])
+                      ("spec", jInts (maps.flatten.map Int.ofNat)),
+                      -- theorem `merged_probes_ordered`: a merged table is in channel-map order and its per-probe
+                      -- re-expression is each probe's original map
+                      ("ordered", Json.bool (probesOrdered cm pr)), ("per_probe", jInts (perProbeRawInd cm pr))])
   | "rawind_direct" =>
     let cm ← getNats j "cm"; let pr ← getNats j "probes"
     let m := exportRawInd cm pr
     -- `ordered`: the class of probe tables for which a per-probe raw index is claimed (Spec `probesOrdered`)
+    -- `per_probe`: the closed form the statement's words give (Spec `perProbeRawInd`, theorem `rawInd_per_probe`):
+    -- raw index − (largest raw index of the previous probe + 1); `probe_max`: (label, largest raw index) per label in use
     pure (Json.mkObj [("model", jInts m), ("ordered", Json.bool (probesOrdered cm pr)),
-                      ("nonneg", Json.bool (m.all fun x => decide (0 ≤ x)))])
+                      ("nonneg", Json.bool (m.all fun x => decide (0 ≤ x))),
+                      ("per_probe", jInts (perProbeRawInd cm pr)),
+                      ("probe_max", jList (fun q => Json.arr #[toJson q, toJson (probeMaxRaw cm pr q)]) (uniqueNat pr))])
   | "nearest" =>
     let pos ← fld j "positions" >>= asList asPos
     let pr ← getNats j "probes"; let peaks ← getNats j "peaks"; let ncw ← getNat j "ncw"
